@@ -41,7 +41,7 @@ from runner import Infra
 
 ID = "C13"
 LEAN_MODULES = ["PyYetiVerif.Props.C13", "PyYetiVerif.Props.C13Text", "PyYetiVerif.Props.C13Dmig", "PyYetiVerif.Props.C13Grid",
-                "PyYetiVerif.Props.C13Cord", "PyYetiVerif.Audit.C13"]
+                "PyYetiVerif.Props.C13Cord", "PyYetiVerif.Props.C13DmigX", "PyYetiVerif.Audit.C13"]
 AUDIT_FILE = "PyYetiVerif/Audit/C13.lean"
 THEOREMS = [
     "PyYetiVerif.C13." + n
@@ -54,7 +54,9 @@ THEOREMS = [
         "dmig_roundtrip_converse dmig_assignments_iff dmig_reader_on_written dmig_frame_roundtrip "
         "dmig_value_field dmig_lines_cards dmig_text_roundtrip "
         "vecwrite_length_rule vecwrite_mismatch_raises vecwrite_broadcast wtgrids_packaging wtgrids_mismatch_raises "
-        "grid_roundtrip cord2_roundtrip uset_roundtrip"
+        "grid_roundtrip cord2_roundtrip uset_roundtrip "
+        "rddmig_default_is_plain rddmig_options_same_cells rddmig_square_index rddmig_expanded_index "
+        "rddmig_expanded_spec rddmig_square_spec rddmig_options_on_lines"
     ).split()
 ]
 TRUSTED = [
@@ -905,6 +907,17 @@ def _reader_streams(ctx, B, texts):
             r = _read(bulk.rddmig, text)
             impl = "error" if isinstance(r, str) else [_frame_canon(k, v) for k, v in r.items()]
             B.add("rddmig", "rddmig " + th, {"text": text}, impl, _dmig_conv, branch="rddmig")
+            # the re-indexing options: expanded (all six DOF of every grid id; form 9: columns 1..NCOL),
+            # square (form 1: union index on both axes, zero filled, not mirrored)
+            forms = {ln[24:32].strip() for ln in text.split("\n") if ln.upper().startswith("DMIG ")}
+            forms |= {ln.split(",")[3].strip() for ln in text.split("\n") if ln.upper().startswith("DMIG,") and ln.count(",") >= 3}
+            for e, q in ((1, 0), (0, 1), (1, 1)):
+                r = _read(bulk.rddmig, text, expanded=bool(e), square=bool(q))
+                impl = "error" if isinstance(r, str) else [_frame_canon(k, v) for k, v in r.items()]
+                br = ["rddmigx:" + ("expanded" if e else "") + ("square" if q else "")]
+                br += ["rddmigx:form%s-%s" % (f, "expanded" if e else "square") for f in forms if f in ("1", "2", "6", "9")]
+                B.add("rddmig-options", "rddmigx %d %d %s" % (e, q, th), {"text": text, "expanded": bool(e), "square": bool(q)},
+                      impl, _dmig_conv, branch=br)
 
 
 def _fixed8_to_comma(text):
@@ -1314,6 +1327,8 @@ REQUIRED = [
     "grids:ValueError", "grids:defaults", "cord:written", "uset:with-coords", "uset:no-coords",
     "rdgrids:ok", "rdgrids:none", "rdgrids:index-error", "rdgrids:ragged", "rdcardsk", "rdcord2:ok", "rdcord2:error",
     "rdcord2:empty", "rdcord2:13-fields", "rdcord2cards",
+    "rddmigx:expanded", "rddmigx:square", "rddmigx:expandedsquare", "rddmigx:form1-expanded", "rddmigx:form1-square",
+    "rddmigx:form2-expanded", "rddmigx:form6-expanded", "rddmigx:form6-square", "rddmigx:form9-expanded", "rddmigx:form9-square",
 ]
 
 
@@ -1513,10 +1528,75 @@ def _o_dmig(case, known):
         bad9 = _o_dmig_form9(d, a, text)
         if bad9:
             return [bad9]
+    if not bad and fam is None:
+        bado = _o_dmig_options(d, a, text, form)
+        if bado:
+            return [bado]
     if not bad:
         return []
     fam = fam or ("dmig-roundtrip-form%d-type%d" % (form, d["mtype"]))
     return [(fam, "rddmig(wtdmig(x)) != x: " + bad[0], bad[1], bad[2])]
+
+
+def _o_dmig_options(d, a, text, form):
+    """rddmig(expanded=True / square=True / both) of a written matrix, restated on the API: the index is the (expanded)
+    label set of the non-null rows / columns — their union on both axes for form 6 and for form 1 with square=True;
+    1..max column number for an expanded form-9 matrix — every written term sits at its own (row id, column id), all
+    other positions are exactly 0, and nothing is mirrored except for form 6"""
+    bulk = _bulk()
+    key = lambda p: 10 * p[0] + p[1]
+    nzr = [d["rowids"][i] for i in range(a.shape[0]) if a[i].any()]
+    nzc = [d["colids"][j] for j in range(a.shape[1]) if a[:, j].any()]
+
+    def expand(labels):
+        out = set()
+        for g, c in labels:
+            out |= {(g, k) for k in range(1, 7)} if c > 0 else {(g, 0)}
+        return out
+
+    for expanded, square in ((True, False), (False, True), (True, True)):
+        opt = ("expanded" if expanded else "") + ("-" if expanded and square else "") + ("square" if square else "")
+        fam = "dmig-%s-form%d" % (opt, form)
+        g = _read(bulk.rddmig, text, expanded=expanded, square=square)
+        if isinstance(g, str) or d["name"].lower() not in g:
+            return (fam + "-raises", "rddmig(%s) fails on a written matrix" % opt, str(g)[:200], "a DataFrame")
+        g = g[d["name"].lower()]
+        union = form == 6 or (form == 1 and square)
+        rows = set(nzr) | (set(nzc) if union else set())
+        cols = set(nzc) | (set(nzr) if union else set())
+        want_rows = sorted(expand(rows) if expanded else rows, key=key)
+        if form == 9:
+            nums = [c for c, _ in nzc]
+            want_cols = [(k, 0) for k in (range(1, max(c for c, _ in d["colids"]) + 1) if expanded else sorted(nums))]
+        else:
+            want_cols = sorted(expand(cols) if expanded else cols, key=key)
+        grow = [(int(x), int(y)) for x, y in g.index.tolist()]
+        gcol = [(int(x), int(y)) for x, y in g.columns.tolist()] if g.columns.nlevels == 2 else [(int(x), 0) for x in g.columns.tolist()]
+        if grow != want_rows or gcol != want_cols:
+            return (fam + "-index", "rddmig(%s): the index is not the %s label set of the non-null rows / columns%s"
+                    % (opt, "expanded" if expanded else "plain", " (union on both axes)" if union else ""),
+                    {"rows": grow[:14], "cols": gcol[:14]}, {"rows": want_rows[:14], "cols": want_cols[:14]})
+        gv = g.values
+        want = {}
+        for i, r in enumerate(d["rowids"]):
+            for j, c in enumerate(d["colids"]):
+                if a[i, j] != 0:
+                    want[(r, c)] = complex(a[i, j])
+        for i, r in enumerate(grow):
+            for j, c in enumerate(gcol):
+                y = complex(gv[i, j])
+                x = want.get((r, c))
+                if x is None:
+                    if not (y == 0):  # NaN counts as non-zero
+                        what = "mirrored" if (c, r) in want and form != 6 else "fill"
+                        return (fam + "-" + what, "rddmig(%s): position (row %s, column %s) holds no written term but is not 0%s"
+                                % (opt, r, c, " (the term of the transposed position: only form 6 is mirrored)" if what == "mirrored" else ""),
+                                [y.real, y.imag], [0.0, 0.0])
+                elif (abs(x.real - y.real) > 5.05e-10 * abs(x.real) + 1e-300 or abs(x.imag - y.imag) > 5.05e-10 * abs(x.imag) + 1e-300
+                      or y != y):
+                    return (fam + "-values", "rddmig(%s): the term at row %s column %s differs" % (opt, r, c),
+                            [y.real, y.imag], [x.real, x.imag])
+    return None
 
 
 def _val_tol(form1, x):
